@@ -1077,6 +1077,15 @@ class Engine:
                 return self.call_function(q, [base], {}, st, fr, node)
             if q is not None or f"ext:{cls}.{attr}" in self.spec.fns:
                 return V(BOUND, None, (base, attr))
+            if self.spec.field(cls, attr, self.prog.mro(cls)) is None:
+                # `self.NAME` where NAME is a constant of the class body (never an instance field of the schema): the class constant
+                for c in self.prog.mro(cls):
+                    if c in self.prog.classes:
+                        cmod, _n = self.prog.classes[c]
+                        node_c = self.prog.const_nodes.get(f"{cmod}:{c}.{attr}")
+                        if isinstance(node_c, ast.Constant) and isinstance(node_c.value, (int, float, str, bool)):
+                            self.assumptions.add(f"{c}.{attr}: read through an instance as the class constant {node_c.value!r} (no instance attribute shadows it)")
+                            return self.const(node_c.value)
             return self.read_field(st, base, attr, fr)
         if k in ("list", "dict", "set", "str", "seqv", "iter", "tuple"):
             if k == "tuple" and getattr(base, "py", None):
